@@ -40,7 +40,7 @@ def ds_replay(ck, behaviours, label):
       ck.violation(f"ds|{c['mode']}|{m['clause']}",
                    f"{label}: S={c['S']} P={c['P']} Start={c['Start']} sched={c['sched']}/{c['End']} "
                    f"step {m['step']} statistic {m['stat']}: {m['clause']} {m.get('detail', '')}",
-                   {"job": j, "mismatches": r["mismatches"][:10]})
+                   {"worker": "harness.workers.ds_cadence", "job": j, "mismatches": r["mismatches"][:10]})
     else:
       ck.traces_ok(1)
   ck.cov.setdefault("env_deviations", 0)
@@ -88,7 +88,7 @@ def judge_traces(ck, traces, label, prefix="ds"):
       mode = t["cfg"]["mode"]
       ck.violation(f"{prefix}|{mode}|{v['verdict']}",
                    f"{label}: trace rejected at event {v['l']} ({v['verdict']}); cfg={t['cfg']}",
-                   {"trace": t, "verdict": v})
+                   {"trace_module": "DSControl_Trace", "trace": t, "verdict": v})
   return verdicts
 
 
@@ -141,7 +141,7 @@ def run(ck):
     if r["mismatches"]:
       m = r["mismatches"][0]
       ck.violation(f"ds|fd|{m['clause']}", f"DSFDControl_Gen replay cfg={j['cfg']} step {m['step']}: {m['clause']} "
-                   f"{m.get('detail', '')}", {"job": j, "mismatches": r["mismatches"][:8]})
+                   f"{m.get('detail', '')}", {"worker": "harness.workers.ds_fdcadence", "job": j, "mismatches": r["mismatches"][:8]})
     else:
       ck.traces_ok(1)
   if mass <= 0.0:
